@@ -145,6 +145,8 @@ def run(res):
     g = None
     try:
         g = generate()
+        if g["archs"].get("selftest"):
+            broken.append("translator self-test: " + g["archs"]["selftest"])
     except (gen_names.TranslateError, gen_x86sig.TranslateError, gen_x86forms.TranslateError) as e:
         broken.append("translator: " + str(e))
     ok, out = vlib.lean_stage(res, PID, MODS)
@@ -168,7 +170,8 @@ def run(res):
     while rc != 0:
         # a sanitizer abort is a violation with a concrete input; the op is set aside so that the rest is still judged
         i, tail = vlib.locate_abort([str(h)], ops)
-        first = [l for l in tail.splitlines() if "runtime error" in l or "ERROR: AddressSanitizer" in l][:1]
+        _, _, full = vlib.run_lines([str(h)], [ops[i]])
+        first = [l for l in (full or tail).splitlines() if "runtime error" in l or "ERROR: AddressSanitizer" in l][:1]
         where = (first or ["?"])[0].split(": runtime error")[0].split("/")[-1]
         res.violation("real code aborts under ASan/UBSan on %r: %s" % (ops[i], (first or [tail[-300:]])[0]),
                       {"ops": [ops[i]], "stderr": tail[-2000:]}, found_input=True, key="abort:" + ":".join(where.split(":")[:1]))
@@ -186,7 +189,9 @@ def run(res):
     # ---- monitor: the property predicate on every answer of the implementation ---------------------------------------
     mon_ops, mon_idx = [], []
     for k, (o, inf, a) in enumerate(zip(ops, info, impl)):
-        if inf[0] == "rt":
+        if inf[0] == "i2s" and inf[1] == "x86" and a.startswith("ok ") and inf[2] != 0 and o.endswith(" 0"):
+            mon_ops.append("mon_dbname %s" % a.split()[1])
+        elif inf[0] == "rt":
             mon_ops.append("mon_rt %s %d %s" % (inf[1], inf[2], a))
         elif inf[0] == "lookup":
             mon_ops.append("mon_lookup %s %s %s" % (inf[1], hexs(inf[2]), a))
@@ -207,7 +212,9 @@ def run(res):
         if m == "good":
             continue
         inf = info[k]
-        if inf[0] in ("rt", "lookup"):
+        if inf[0] == "i2s":
+            key = "names:x86:printed-name-not-in-database"
+        elif inf[0] in ("rt", "lookup"):
             key = "names:a64-unsorted-span" if (m == "BAD unsorted-span" and inf[1] == "a64") else "names:%s:%s" % (inf[1], m[4:])
         else:
             cls = m[4:]
